@@ -130,7 +130,7 @@ def torn_states(prop, case, scratch, stats, out):
                     if os.path.exists(pth):
                         os.remove(pth)
                 else:
-                    with builtins.open(pth, "wb") as f:
+                    with M.ORIG_OPEN(pth, "wb") as f:
                         f.write(files[n])
             try:
                 t = Traph(folder=folder, default_webentity_creation_rule=RX[case["cfg"]["default"]], webentity_creation_rules=dict(rules))
@@ -192,12 +192,12 @@ def run_case(prop, case, spec, scratch, stats):
                     # may fail there; opening and querying still must not change a byte.
                     sut.t.close()
                     from ..harness import Traph
-                    before = [open(os.path.join(sut.folder, n), "rb").read() for n in ("lru_trie.dat", "link_store.dat")]
+                    before = [M.ORIG_OPEN(os.path.join(sut.folder, n), "rb").read() for n in ("lru_trie.dat", "link_store.dat")]
                     sut.t = Traph(folder=sut.folder, debug=True)
                     stats["C14_batteries_after_debug_mode_open"] += 1
                     monitored_battery(sut, rng, stats, out)
                     sut.t.close()
-                    after = [open(os.path.join(sut.folder, n), "rb").read() for n in ("lru_trie.dat", "link_store.dat")]
+                    after = [M.ORIG_OPEN(os.path.join(sut.folder, n), "rb").read() for n in ("lru_trie.dat", "link_store.dat")]
                     if not out and before != after:
                         out.append(D(["C14"], "files-changed-by-debug-mode-open-and-queries", sizes=[len(x) for x in before + after]))
                     sut.t = Traph(folder=sut.folder, default_webentity_creation_rule=sut.m.default_pattern,
